@@ -297,7 +297,13 @@ func (db *DB) Write(batch *Batch, wo *opt.WriteOptions) error {
 			tr.Discard()
 			return err
 		}
-		return tr.Commit()
+		if err := tr.Commit(); err != nil {
+			// The transaction is not reachable by the caller: discard it,
+			// or the write lock would be held forever.
+			tr.Discard()
+			return err
+		}
+		return nil
 	}
 
 	merge := !wo.GetNoWriteMerge() && !db.s.o.GetNoWriteMerge()
